@@ -1107,6 +1107,15 @@ class MiniInterp:
                     return (min if f.id == 'min' else max)(args)
                 if f.id == 'bool' and len(args) == 1:
                     return bool(args[0])
+                if f.id == 'sum' and 1 <= len(args) <= 2 and isinstance(args[0], (list, range)):
+                    total = args[1] if len(args) == 2 else 0
+                    for x in args[0]:
+                        total = self.binop(n, ast.Add(), total, x)
+                    return total
+                if f.id == 'abs' and len(args) == 1 and isinstance(args[0], int) and not isinstance(args[0], bool):
+                    return abs(args[0])
+                if f.id in ('any', 'all') and len(args) == 1 and isinstance(args[0], (list, range, str)):
+                    return (any if f.id == 'any' else all)(bool(x) for x in args[0])
             except (TypeError, ValueError):
                 self.fail(n, 'error evaluating ' + ast.unparse(n)[:60])
             self.fail(n, 'call ' + ast.unparse(n)[:60])
